@@ -257,6 +257,9 @@ class AnfTransformer(transformer.Base):
   def visit_AugAssign(self, node):
     return self._visit_strict_statement(node, children_ok_to_transform=False)
 
+  def visit_AnnAssign(self, node):
+    return self._visit_strict_statement(node, children_ok_to_transform=False)
+
   def visit_Print(self, node):
     return self._visit_strict_statement(node)
 
